@@ -2,6 +2,10 @@ package main
 
 import (
 	"bufio"
+
+	"github.com/relab/gorums"
+	"google.golang.org/grpc/backoff"
+
 	"encoding/json"
 	"flag"
 	"fmt"
@@ -21,7 +25,7 @@ var callsAlphabet = map[string]bool{
 	"CallStart": true, "CallSkip": true, "HandOffWait": true, "CallEnq": true, "CallIssued": true,
 	"HStart": true, "HReply": true, "HFail": true, "HEnd": true, "Route": true, "CallRecv": true,
 	"CallConfirm": true, "QF": true, "CorrPublish": true, "CallLoop": true, "CallEnd": true, "CtxEnd": true,
-	"StubRet": true, "ObsAsync": true, "ObsCorr": true, "Quiescent": true,
+	"StubRet": true, "ObsAsync": true, "ObsCorr": true, "Quiescent": true, "NodeDown": true,
 }
 
 func readScenarios(path string) ([]drive.Scenario, error) {
@@ -102,49 +106,84 @@ func cmdCalls(args []string) error {
 		scs = scs[:*max]
 		exhaustive = false
 	}
-	tr := vtrace.New()
-	env, err := drive.NewEnv(tr, drive.EnvOpts{Nodes: *nodes})
-	if err != nil {
-		return err
+	faults := false
+	for _, s := range scs {
+		if s.Sc.Fk != "" {
+			faults = true
+		}
 	}
-	run := &drive.Runner{E: env}
 	start := time.Now()
 	toks := make([]uint64, len(scs))
-	var wg sync.WaitGroup
-	next := make(chan int)
-	for w := 0; w < *par; w++ {
-		wg.Add(1)
-		go func() {
-			defer wg.Done()
-			for i := range next {
-				toks[i] = run.Run(scs[i])
+	byTok := map[uint64][]vtrace.Event{}
+	if faults {
+		// C07: servers are stopped / never started: a fresh environment per scenario
+		for i, s := range scs {
+			tr := vtrace.New()
+			down := map[int]bool{}
+			if s.Sc.Fk == "never" {
+				for _, st := range s.H {
+					if st.A == "t" {
+						down[st.N] = true
+					}
+				}
 			}
-		}()
-	}
-	fed := 0
-	for i := range scs {
-		if atomic.LoadInt32(&run.Stuck) >= 20 {
-			// enough evidence; every further scenario would wait out the same timeouts
-			break
+			env, err := drive.NewEnv(tr, drive.EnvOpts{Nodes: s.Sc.N, Down: down, DialTimeout: 100 * time.Millisecond, TokBase: uint64(i+1) * 100,
+				MgrOpts: []gorums.ManagerOption{gorums.WithBackoff(backoff.Config{BaseDelay: 50 * time.Millisecond, Multiplier: 1.5, MaxDelay: 200 * time.Millisecond})}})
+			if err != nil {
+				return err
+			}
+			run := &drive.Runner{E: env}
+			toks[i] = run.Run(s)
+			tr.Stop()
+			for _, e := range tr.Events(0) {
+				if e.Tok == toks[i] && callsAlphabet[e.Ev] {
+					byTok[toks[i]] = append(byTok[toks[i]], e)
+				}
+			}
+			env.Close()
 		}
-		next <- i
-		fed++
-	}
-	close(next)
-	wg.Wait()
-	if fed < len(scs) {
-		scs, toks, exhaustive = scs[:fed], toks[:fed], false
+	} else {
+		tr := vtrace.New()
+		env, err := drive.NewEnv(tr, drive.EnvOpts{Nodes: *nodes})
+		if err != nil {
+			return err
+		}
+		run := &drive.Runner{E: env}
+		var wg sync.WaitGroup
+		next := make(chan int)
+		for w := 0; w < *par; w++ {
+			wg.Add(1)
+			go func() {
+				defer wg.Done()
+				for i := range next {
+					toks[i] = run.Run(scs[i])
+				}
+			}()
+		}
+		fed := 0
+		for i := range scs {
+			if atomic.LoadInt32(&run.Stuck) >= 20 {
+				// enough evidence; every further scenario would wait out the same timeouts
+				break
+			}
+			next <- i
+			fed++
+		}
+		close(next)
+		wg.Wait()
+		if fed < len(scs) {
+			scs, toks, exhaustive = scs[:fed], toks[:fed], false
+		}
+		tr.Stop()
+		events := tr.Events(0)
+		env.Close()
+		for _, e := range events {
+			if e.Tok != 0 && callsAlphabet[e.Ev] {
+				byTok[e.Tok] = append(byTok[e.Tok], e)
+			}
+		}
 	}
 	wall := time.Since(start)
-	tr.Stop()
-	events := tr.Events(0)
-	env.Close()
-	byTok := map[uint64][]vtrace.Event{}
-	for _, e := range events {
-		if e.Tok != 0 && callsAlphabet[e.Ev] {
-			byTok[e.Tok] = append(byTok[e.Tok], e)
-		}
-	}
 	w, err := vtrace.NewWriter(*out)
 	if err != nil {
 		return err
